@@ -52,6 +52,11 @@ def faults(raw, fresh):
             if U:
                 add(f"sensor {k}.{rn} depends on a control", "filter", lambda r, k=k, rn=rn: r["sensors"][k].__setitem__(rn, M.add(r["sensors"][k][rn], M.var(U[0]))))
             add(f"sensor {k}.{rn} depends on an undeclared symbol", "filter", lambda r, k=k, rn=rn: r["sensors"][k].__setitem__(rn, M.add(r["sensors"][k][rn], M.var(fresh))))  # added, not multiplied: a reading that is identically 0 would swallow a factor
+            if U:
+                add(f"sensor {k}.{rn} depends on a control and an undeclared symbol", "filter",
+                    lambda r, k=k, rn=rn: r["sensors"][k].__setitem__(rn, M.add(M.add(r["sensors"][k][rn], M.var(U[0])), M.var(fresh))))
+            add(f"sensor {k}.{rn} depends on two undeclared symbols", "filter",
+                lambda r, k=k, rn=rn: r["sensors"][k].__setitem__(rn, M.add(M.add(r["sensors"][k][rn], M.var(fresh)), M.mul(M.var(fresh + "_b"), M.var(fresh)))))
             add(f"noise missing for reading {k}.{rn}", "filter", lambda r, k=k, rn=rn: r["sensor_noise"][k].pop(rn))
             add(f"noise keyed by an unknown reading instead of {k}.{rn}", "filter", lambda r, k=k, rn=rn: r["sensor_noise"][k].__setitem__("zz_unknown", r["sensor_noise"][k].pop(rn)))
         add(f"noise for an unknown reading of {k}", "filter", lambda r, k=k: r["sensor_noise"][k].__setitem__("zz_unknown", 0.5))
@@ -100,8 +105,13 @@ def run(ctx: Ctx):
         raw = raw_of(d)
         defs.append(raw); meta.append(("valid", "none", b))
         fl = faults(raw, fresh)
-        for kind, r, level in fl:
+        for fi, (kind, r, level) in enumerate(fl):
             defs.append(r); meta.append((kind, level, b))
+            if level == "filter" and fi % 3 == 0 and all(r[f_] == raw[f_] for f_ in ("dt", "state", "control", "calibration", "state_model")):
+                # the same fault after a valid filter was built from the same model object
+                r2 = copy.deepcopy(r)
+                r2["valid_first"] = {k_: copy.deepcopy(raw[k_]) for k_ in ("process_noise", "sensors", "sensor_noise", "calibration_map")}
+                defs.append(r2); meta.append((kind + " [after a valid filter built from the same model object]", level, b))
         for _ in range(n_pairs // n_base):
             (k1, r1, l1), (k2, r2, l2) = ctx.rng.sample(fl, 2)
             # apply the second fault's difference on top of the first where they touch different fields
